@@ -323,14 +323,23 @@ class ContractRun:
                     self.record(fn, 'post', case['name'], True, None, vacuous=True)
                     continue
             self.last_args = list(args)
+            case_rets = 0
             for s0 in cstates:
                 interp.stack = [(fn.name, 'entry')]
                 rets = interp.run_function(fn, s0, list(args))
                 interp.stack = []
                 if case is None:
                     total_rets += len(rets)
+                case_rets += len(rets)
+                if case is not None and case.get('noreturn'):
+                    continue
                 for (T, rv) in rets:
                     self.check_return(fn, spec, env, struct_params, T, rv, posts)
+            if case is not None and case.get('noreturn'):
+                # the premise describes arguments the function must refuse (throw / abort): no return may be reachable
+                self.record(fn, 'post', '%s: does not return' % case['name'], case_rets == 0,
+                            None if case_rets == 0 else 'case %s: %s returns normally on %d path(s) although it must throw / abort '
+                            'under %s' % (case['name'], fn.name, case_rets, ' and '.join(case['when'])))
         if total_rets == 0:
             self.results.append((fname, 'returns', 'function has a feasible return', False,
                                  'no return reachable under the contract'))
